@@ -27,6 +27,7 @@ import (
 	fail "github.com/ebuchman/fail-test"
 	"github.com/kardiachain/go-kardia/configs"
 	"github.com/kardiachain/go-kardia/lib/common"
+	"github.com/kardiachain/go-kardia/lib/crypto"
 	"github.com/kardiachain/go-kardia/lib/log"
 	"github.com/kardiachain/go-kardia/types"
 
@@ -92,6 +93,12 @@ func (blockExec *BlockExecutor) SetEventBus(b *types.EventBus) {
 // ie. to verify evidence from a validator at an old height.
 func (blockExec *BlockExecutor) ValidateBlock(state LatestBlockState, block *types.Block) error {
 	hash := block.Hash()
+	if lc := block.LastCommit(); lc != nil {
+		// Block.Hash() does not cover the height, round and block id of LastCommit (Commit.Hash()
+		// hashes the signatures only), so they are part of the cache key
+		hash = common.BytesToHash(crypto.Keccak256(hash.Bytes(), lc.BlockID.Hash.Bytes(), lc.BlockID.PartsHeader.Hash.Bytes(),
+			[]byte(fmt.Sprintf("%d/%d/%d", lc.Height, lc.Round, lc.BlockID.PartsHeader.Total))))
+	}
 	if _, ok := blockExec.cache[hash]; ok {
 		return nil
 	}
